@@ -8,7 +8,8 @@ CLAIM = ('Decides statically that the bundled Blake2b has the RFC 7693 structure
          'word selection, v/h initialisation and feed-forward, the 128-bit counter, last-block flag, zero padding, the parameter block layout and its unkeyed/keyed contents; the streaming interface keeps the last block '
          'buffered with strict comparisons and reads exactly the given bytes; no output byte is written on any rejected parameter combination; the commitment is init(32).update(input).update(hash).final. '
          'Digest equality for all lengths/chunkings follows from these plus 64-bit arithmetic, which is not re-derived numerically.'
-         ' The streaming behaviour of blake2b_update (which blocks are compressed, with which counter, what stays buffered) and blake2b_final (counter, flag, padding, exactly outlen output bytes) are decided on the bookkeeping slice for every buffered length x input length 0..300 and digest lengths 1..64, whatever the shape of the code (B2-STREAM, B2-FINAL); no output byte is written on a path that can still reject.')
+         ' The streaming behaviour of blake2b_update (which blocks are compressed, with which counter, what stays buffered) and blake2b_final (counter, flag, padding, exactly outlen output bytes) are decided on the bookkeeping slice for every buffered length x input length 0..300 and digest lengths 1..64, whatever the shape of the code (B2-STREAM, B2-FINAL); no output byte is written on a path that can still reject.'
+         ' A valid call is never rejected, and the empty chunk (NULL, 0) that blake2b() passes on for an empty message is accepted and changes nothing (B2-STREAM).')
 LEVEL_NOTE = 'Trusted: clang AST (after macro expansion of G/ROUND); little-endian load/store helpers; that the RFC text encoded in the checker (sigma, G structure) is transcribed correctly (IV is computed, not transcribed).'
 EXPLANATION = 'B2-CONST, B2-COMPRESS (96 round statements + initialisation), B2-UPDATE, B2-REJECT, B2-KEYED, B2-COMMIT, B2-INBOUND. B2-STREAM, B2-FINAL.'
 
